@@ -12,6 +12,8 @@ sys.path.insert(0, "lib")
 import core, simgen, armsgen
 core.build_native()
 print("native harness built")
+core.build_native(libopt=True)
+print("native harness built against the release-like library")
 for v in ("linux", "macos"):
     for p in ("dev", "release"):
         simgen.build(v, p)
